@@ -50,5 +50,5 @@ def defaultHashCheckers : List String := ["sha1", "sha256", "blake3"]
 def defaultHashFunction : String := "sha256"
 def configHashCoversHashCheckers : Bool := false
 def ruleHashCoversHashes : Bool := true
-def ruleHashCoversHashCheckers : Bool := false
+def ruleHashCoversHashCheckers : Bool := true
 end PlzVerif.Generated.C35
